@@ -116,7 +116,7 @@ Apply(n, pv) ==
   LET d == Def[n] IN
   CASE d.kind = "Plus"  -> Arith("+", PlusFold(Tail(d.refs), pv, pv[Head(d.refs)]), VN(d.k))
     [] d.kind = "Lin"   -> LinApply(d, pv)
-    [] d.kind = "Cat"   -> Concat(pv[d.ref], VS("x"))
+    [] d.kind = "Cat"   -> Concat(pv[d.ref], VS(d.suf))
     [] d.kind = "SumR"  -> SumCells(Flat(pv[d.rng]))
     [] d.kind = "Idx"   -> NoBlank(pv[d.rng][2][d.i][d.j])
     [] d.kind = "Range" -> VM([i \in 1..Len(d.rows) |->
@@ -142,10 +142,13 @@ Fresh(n, i) == FreshAll(i)[n]
 
 StoredMap == FreshAll(Init0)
 Stored(n) == StoredMap[n]
+\* what the reader hands over for a stored result: the empty text comes back
+\* as "no value" (UnkV), while the dependants of the cell carry stored results
+StoredRead(n) == IF Stored(n) = VS("") THEN UnkV ELSE Stored(n)
 
 (* ---- depth-first fill: stops at cached nodes ---- *)
 RECURSIVE Needed(_, _)
-Needed(x, c) == IF c[x] # NoneV THEN {}
+Needed(x, c) == IF ~NoVal(c[x]) THEN {}
                 ELSE {x} \cup UNION {Needed(p, c) : p \in PrecMap[x]}
 
 Fill(c, roots) == FillLevels(c, UNION {Needed(r, c) : r \in roots}, 1)
@@ -171,7 +174,8 @@ FullBuild == {x \in Nodes : ~(/\ x \in Ranges /\ Def[x].kind = "Range"
                                /\ \A y \in Nodes : x \notin PrecMap[y])}
 LoadedCache ==   \* from_file: every cell built, formulas uncomputed, then the
                  \* ranges are evaluated eagerly by _process_gen_graph
-  LET c0 == [x \in Nodes |-> IF x \in Inputs THEN Init0[x] ELSE NoneV]
+  LET c0 == [x \in Nodes |-> IF x \in Inputs THEN Init0[x]
+                             ELSE IF x \in Formulas THEN UnkV ELSE NoneV]
   IN  Fill(c0, FullBuild \cap (Ranges \cup Aliases))
 
 Init ==
@@ -193,7 +197,8 @@ EvalStep(st, n) ==
       c0 == [x \in Nodes |->
                IF x \notin B THEN st.cache[x]
                ELSE IF x \in Inputs THEN inp[x]
-               ELSE IF x \in Formulas /\ Src = "Stored" /\ ~changed THEN Stored(x)
+               ELSE IF x \in Formulas /\ Src = "Stored" /\ ~changed THEN StoredRead(x)
+               ELSE IF x \in Formulas /\ ~changed THEN UnkV    \* nothing stored: also "read as None"
                ELSE NoneV]
       c1 == Fill(c0, {n} \cup (B \cap (Ranges \cup Aliases)))
   IN  [built |-> st.built \cup B, cache |-> c1, edges |-> st.edges \cup NewEdges(B)]
@@ -283,7 +288,7 @@ Spec == Init /\ [][Next]_vars
 ------------------------------------------------------------------------------
 (* LazyCache layer: what every correct cache discipline satisfies *)
 Coherent == LET f == FreshAll(inp) IN
-  \A n \in built \ Inputs : cache[n] # NoneV => cache[n] = f[n]
+  \A n \in built \ Inputs : ~NoVal(cache[n]) => cache[n] = f[n]
 InputsMirror == /\ \A a \in built \cap Inputs : cache[a] = inp[a]
                 /\ \A a \in Inputs \ built : inp[a] = Init0[a]
 RetOK == /\ act.op = "evaluate" => ret = Fresh(act.n, inp)
@@ -291,7 +296,10 @@ RetOK == /\ act.op = "evaluate" => ret = Fresh(act.n, inp)
               ret[2] = [i \in 1..Len(act.ns) |-> Fresh(act.ns[i], inp)]
 
 (* facts about the implementation's own structures *)
-Closure == \A n \in built \ Inputs : cache[n] # NoneV =>
+\* a cell with a value has precedents which are not known to be reset (this is
+\* what makes the early stop of _reset sound; UnkV precedents are allowed: a
+\* reset walks through them)
+Closure == \A n \in built \ Inputs : ~NoVal(cache[n]) =>
              \A p \in Prec(n) : p \in built /\ cache[p] # NoneV
 EdgesComplete == \A d \in built, p \in Nodes : p \in Prec(d) =>
                    p \in built /\ <<p, d>> \in edges
